@@ -812,3 +812,31 @@ Proof.
       unfold wf_headers in WH, WT. apply andb_true_iff in WH, WT. destruct WH as [WH _], WT as [WT _].
       rewrite (all_vals_join _ n WH), (all_vals_join _ n WT). reflexivity.
 Qed.
+
+(* ---------- the reference client's choice of the HTTP method ---------- *)
+Lemma get_case_sent_as_get_proof : forall use_get len, sent_as_get documented_get_setup use_get len = use_get.
+Proof. intros [|] len; reflexivity. Qed.
+
+(* any cap on the URL length sends some GET case out as POST *)
+Lemma url_cap_falls_back_proof : forall cap, exists len, sent_as_get (mkGS true (Some cap)) true len = false.
+Proof.
+  intros cap. exists (cap + 1)%Z. unfold sent_as_get. cbn.
+  apply Z.leb_gt. lia.
+Qed.
+
+Lemma installed_get_setup_documented_proof : forall cap, setup_of c02_client_get_options cap = documented_get_setup.
+Proof. intros cap. reflexivity. Qed.
+
+(* expectation_agrees with the set-up made explicit: whatever the length of the URL, a case goes out as GET exactly
+   when it sets use_get_http_method, so the run is the one the transport hypotheses speak about *)
+Lemma expectation_met_any_url_length_proof :
+  forall len tr_req tr_query tr_rsp, transport_ok tr_req tr_query tr_rsp ->
+  forall tc codec comp e, wf tc = true -> fd_immediate_error_multi tc = false -> known_codec codec ->
+  expected codec tc = Ok e ->
+  forall sv cl, peers_apply sv cl tc ->
+  passes tr_req (fun g => tr_query (sent_as_get documented_get_setup g len)) tr_rsp sv cl codec comp tc e.
+Proof.
+  intros len tr_req tr_query tr_rsp T tc codec comp e W F K E sv cl P.
+  unfold passes, observed. rewrite get_case_sent_as_get_proof.
+  exact (expectation_agrees_proof tr_req tr_query tr_rsp T tc codec comp e W F K E sv cl P).
+Qed.
